@@ -15,42 +15,45 @@ theorem arm_init (d : Drv) (cap : Nat) : ArmInv (init d cap) := by
   intro _ fd
   simp [init, Reg.empty, FdQ.empty, FdQ.event, noInterest]
 
-theorem driverCancel_arm {s : State} (h : ∀ fd, s.armed fd = (s.reg fd).event) (id : Nat) (o : Op) :
-    ∀ fd, (driverCancel s id o).armed fd = ((driverCancel s id o).reg fd).event := by
-  unfold driverCancel iourCancel pollCancel
+theorem driverCancel_arm {c : Cfg} {s : State} (h : ∀ fd, s.armed fd = (s.reg fd).event) (id : Nat) (o : Op)
+    (posts : List (Nat × Bool × Res)) :
+    ∀ fd, (driverCancel c s id o posts).armed fd = ((driverCancel c s id o posts).reg fd).event := by
+  unfold driverCancel
   split
-  · split <;> exact h
-  · split
+  · obtain ⟨_, _, h3, h4, _⟩ := iourCancel_fields c s id posts
+    intro fd; rw [h3, h4]; exact h fd
+  · unfold pollCancel
+    split
     · exact h
     · intro fd
       by_cases hf : fd = o.fd
       · subst hf; simp only [upd_same]
       · simp only [upd_other _ _ _ _ hf]; exact h fd
 
-theorem driverCancel_alive' (s : State) (id : Nat) (o : Op) : (driverCancel s id o).alive = s.alive :=
-  (driverCancel_alive s id o).1
-
-theorem cancelIssue_arm {s : State} (h : ∀ fd, s.armed fd = (s.reg fd).event) (id : Nat) (o : Op) :
-    ∀ fd, (cancelIssue s id o).armed fd = ((cancelIssue s id o).reg fd).event := by
+theorem cancelIssue_arm {c : Cfg} {s : State} (h : ∀ fd, s.armed fd = (s.reg fd).event) (id : Nat) (o : Op)
+    (posts : List (Nat × Bool × Res)) :
+    ∀ fd, (cancelIssue c s id o posts).armed fd = ((cancelIssue c s id o posts).reg fd).event := by
   unfold cancelIssue
-  exact driverCancel_arm (s := { s with ops := modAt (fun o => { o with cancelled := true }) s.ops id }) h id o
+  exact driverCancel_arm (s := { s with ops := modAt (fun o => { o with cancelled := true }) s.ops id }) h id o posts
 
-theorem cancelKey_arm {s : State} (h : ∀ fd, s.armed fd = (s.reg fd).event) (id : Nat) (o : Op) :
-    ∀ fd, (cancelKey s id o).armed fd = ((cancelKey s id o).reg fd).event := by
+theorem cancelKey_arm {c : Cfg} {s : State} (h : ∀ fd, s.armed fd = (s.reg fd).event) (id : Nat) (o : Op)
+    (posts : List (Nat × Bool × Res)) :
+    ∀ fd, (cancelKey c s id o posts).armed fd = ((cancelKey c s id o posts).reg fd).event := by
   unfold cancelKey
   split
   · exact h
   · split
     · exact h
-    · exact cancelIssue_arm h id o
+    · exact cancelIssue_arm h id o posts
 
-theorem cancelTok_arm {s : State} (h : ∀ fd, s.armed fd = (s.reg fd).event) (id : Nat) (o : Op) :
-    ∀ fd, (cancelTok s id o).armed fd = ((cancelTok s id o).reg fd).event := by
+theorem cancelTok_arm {c : Cfg} {s : State} (h : ∀ fd, s.armed fd = (s.reg fd).event) (id : Nat) (o : Op)
+    (posts : List (Nat × Bool × Res)) :
+    ∀ fd, (cancelTok c s id o posts).armed fd = ((cancelTok c s id o posts).reg fd).event := by
   unfold cancelTok
   split
   · exact h
   · exact cancelIssue_arm (s := { s with ops := modAt (fun o => ({ o.cloneRef with user := o.user + 1 } : Op)) s.ops id })
-      h id _
+      h id _ posts
 
 theorem step_arm {c : Cfg} {s s' : State} {e : Event} (hinv : Inv c s) (hi : ArmInv s) (h : step c s e = some s') :
     ArmInv s' := by
@@ -89,16 +92,16 @@ theorem step_arm {c : Cfg} {s s' : State} {e : Event} (hinv : Inv c s) (hi : Arm
           · subst hf; simp only [upd_same]
           · simp only [upd_other _ _ _ _ hf]; exact hb fd'
     · cases h
-  | userCancel id =>
+  | userCancel id posts =>
     simp only [step] at h
     split at h
     · split at h
       · rename_i hg
         obtain rfl := Option.some.inj h
-        intro _; exact cancelKey_arm (hi hg.1) _ _
+        intro _; exact cancelKey_arm (hi hg.1) _ _ _
       · cases h
     · cases h
-  | cloneCancel id =>
+  | cloneCancel id posts =>
     simp only [step] at h
     split at h
     · split at h
@@ -106,10 +109,10 @@ theorem step_arm {c : Cfg} {s s' : State} {e : Event} (hinv : Inv c s) (hi : Arm
         obtain rfl := Option.some.inj h
         intro _
         exact cancelKey_arm (s := { s with ops := modAt (fun o => ({ o.cloneRef with user := o.user + 1 } : Op)) s.ops id })
-          (hi hg.1) _ _
+          (hi hg.1) _ _ _
       · cases h
     · cases h
-  | tokenCancel id =>
+  | tokenCancel id posts =>
     simp only [step] at h
     split at h
     · split at h
@@ -117,7 +120,7 @@ theorem step_arm {c : Cfg} {s s' : State} {e : Event} (hinv : Inv c s) (hi : Arm
         split at h
         · obtain rfl := Option.some.inj h; exact hi
         · obtain rfl := Option.some.inj h
-          intro _; exact cancelTok_arm (hi hg.1) _ _
+          intro _; exact cancelTok_arm (hi hg.1) _ _ _
       · cases h
     · cases h
   | dropBegin =>
